@@ -89,6 +89,18 @@ theorem bytes_len6 (b : Bytes) (h : b.length = 6) : ∃ x0 x1 x2 x3 x4 x5, b = [
 theorem take_prefix (n : Nat) (a r : Bytes) (h : a.length = n) : List.take n (a ++ r) = a := by
   subst h; simp
 
+/-- binding after a conditional = conditional of the bindings (lets the `do` blocks of the decoders be folded back) -/
+theorem bind_ite {α β} (c : Prop) [Decidable c] (a b : R α) (f : α → R β) :
+    ((if c then a else b) >>= f) = if c then a >>= f else b >>= f := by
+  split <;> rfl
+
+theorem bytes_len16 (b : Bytes) (h : b.length = 16) :
+    ∃ x0 x1 x2 x3 x4 x5 x6 x7 x8 x9 x10 x11 x12 x13 x14 x15,
+      b = [x0, x1, x2, x3, x4, x5, x6, x7, x8, x9, x10, x11, x12, x13, x14, x15] := by
+  match b, h with
+  | [x0, x1, x2, x3, x4, x5, x6, x7, x8, x9, x10, x11, x12, x13, x14, x15], _ =>
+    exact ⟨x0, x1, x2, x3, x4, x5, x6, x7, x8, x9, x10, x11, x12, x13, x14, x15, rfl⟩
+
 /-! ### tactics -/
 
 /-- evaluate the decoder's reads on a slice whose backing array is an explicit concatenation -/
